@@ -20,18 +20,21 @@ WritePaths == {"writer", "writer-appended", "export", "export-filtered", "compre
 Corruptions == {"len", "roi", "unknown", "missing", "index", "indexoffset", "chcount", "lasers",
                 "samples", "extlink", "flowzero", "pixneg", "chwzero", "flmissing",
                 \* "nopower": a counted laser without its power key
-                "nopower"}
+                "nopower",
+                \* counts of zero although channels / lasers are there
+                "chcount0", "lasers0"}
 \* corruptions of the metadata survive a copy of the file - except for the keys
 \* that the writer derives from the data whenever it closes a file (ROI size,
 \* samples per event): a copy repairs those, which is not held against it
-MetaCorruptions == {"missing", "chcount", "lasers", "flowzero", "pixneg", "chwzero"}
+MetaCorruptions == {"missing", "chcount", "lasers", "flowzero", "pixneg", "chwzero",
+                    "chcount0", "lasers0"}
 Class(c) == CASE c = "len" -> "feature length differs from the event count"
               [] c = "roi" -> "image size contradicts the ROI metadata"
               [] c = "unknown" -> "unknown feature"
               [] c \in {"missing", "flmissing"} -> "mandatory metadata missing"
               [] c \in {"index", "indexoffset"} -> "index does not enumerate the events"
-              [] c = "chcount" -> "fluorescence channel count contradicts the data"
-              [] c \in {"lasers", "nopower"} -> "laser count contradicts the metadata"
+              [] c \in {"chcount", "chcount0"} -> "fluorescence channel count contradicts the data"
+              [] c \in {"lasers", "nopower", "lasers0"} -> "laser count contradicts the metadata"
               [] c = "samples" -> "samples per event contradict the trace length"
               [] c = "extlink" -> "external link"
               [] c \in {"flowzero", "pixneg", "chwzero"} -> "non-positive set-up value"
@@ -59,18 +62,22 @@ Init == /\ path \in WritePaths
               /\ path \in {"writer", "export", "export-filtered", "compress", "split-part"}
         /\ fl \in FlChannels
         /\ fl # "fl1" =>
-              /\ corr \subseteq {"chcount", "lasers", "flmissing", "nopower"} /\ corr # {}
+              /\ corr \subseteq {"chcount", "lasers", "flmissing", "nopower", "chcount0", "lasers0"}
+              /\ corr # {}
               /\ copied = "no" /\ content = FullContent
               /\ path \in {"writer", "export", "compress"}
         \* an ROI contradiction needs image-shaped data
         /\ ("roi" \in corr) => content # {}
         \* corruptions need the respective data: a condensed file has no image / trace
-        /\ (path = "condense") => corr \cap {"roi", "samples", "chcount", "lasers", "nopower"} = {}
+        /\ (path = "condense") => corr \cap {"roi", "samples", "chcount", "lasers", "nopower", "chcount0",
+                                             "lasers0"} = {}
         /\ (copied # "no") => corr \subseteq MetaCorruptions
         \* two corruptions of the same key do not both show
         /\ ~({"chwzero", "missing"} \subseteq corr)
         /\ ~({"index", "indexoffset"} \subseteq corr)
         /\ ~({"lasers", "nopower"} \subseteq corr)
+        /\ ~({"chcount", "chcount0"} \subseteq corr)
+        /\ Cardinality({"lasers", "nopower", "lasers0"} \cap corr) <= 1
 Next == UNCHANGED <<path, corr, copied, content, fl>>
 
 ExpectedClasses == {Class(c) : c \in corr}
